@@ -111,7 +111,8 @@ static void functor(World* w, int k) {
 
 static bool siteFilter(const char* s) {
   return (s[0] == 'T' && s[1] == 'p') || (s[0] == 'P' && (s[1] == 'w' || s[1] == 'i')) ||
-      (s[0] == 'E' && s[1] == 'w') || (s[0] == 'F' && s[1] == 'u') || (s[0] == 'D' && s[1] == 'r');
+      (s[0] == 'E' && s[1] == 'w') || (s[0] == 'F' && s[1] == 'u') || (s[0] == 'D' && s[1] == 'r') ||
+      (s[0] == 'I' && s[1] == 'n' && s[2] == 'l'); // Inl* notes (inline depth)
 }
 
 static ctl::RunResult execute(const Tree& tree, int pidx, int nw, int mult, bool heavy, ctl::RunOptions opts,
